@@ -10,7 +10,11 @@
 (*        file, cut by the harness), big (the head would exceed the cap:   *)
 (*        no view), slices, inflated (hash of the byte range of every      *)
 (*        directory record; the harness' own zlib decode of it), indep     *)
-(*        (WOFF2: did the harness' own reader get through the file)        *)
+(*        (WOFF2: did the harness' own reader get through the file).       *)
+(*        An event whose process died (outcome OOM, StackOverflow, Timeout,*)
+(*        Abort) carries no observation: big = TRUE, empty view and facts; *)
+(*        it is judged by the outcome clause alone - in every group, the   *)
+(*        container group included.                                        *)
 (*   o  = [oc (outcome), ok, err (calls that returned a value / an error), *)
 (*         panics (sites), msg]                                            *)
 (*        Container events add  facts = what FontData::read,               *)
@@ -35,6 +39,7 @@ FaultOK(f) ==
   /\ f[1] \in FaultKinds
   /\ f[2] \in Roles \cup {""}
   /\ f[3] \in ValueClasses \cup {""}
+  /\ (f[3] # "" => ClassApplies(f[3], f[2]))
   /\ f[4] \in Levels
 
 AlphabetFailures(e) ==
@@ -68,7 +73,10 @@ Failures(e) ==
                         \cup ContainerFailures(ContainerExpect(e.a.view), e.o.facts, e.a.slices, e.a.inflated))
         ELSE {})
 
-Want(e) == IF e.ev = "Container" /\ ~e.a.big
+\* only events that returned are compared with the container expectation; nothing else of a Container
+\* event is looked at when its process died
+Returned(e) == e.o.oc \in {"Ok", "Err", "Panic"}
+Want(e) == IF e.ev = "Container" /\ Returned(e) /\ ~e.a.big
            THEN LET x == ContainerExpect(e.a.view) IN
                 [read |-> x.read, kind |-> x.kind, prov |-> x.prov, tabs |-> [k \in 1 .. Len(x.font.tabs) |-> x.font.tabs[k].st]]
            ELSE [read |-> "", kind |-> "", prov |-> <<>>, tabs |-> <<>>]
@@ -85,7 +93,7 @@ TNext ==
                                              faults |-> e.a.faults, min |-> e.a.min, patches |-> e.a.patches],
                                        o |-> [oc |-> e.o.oc, ok |-> e.o.ok, err |-> e.o.err, panics |-> e.o.panics, pmsg |-> e.o.pmsg, msg |-> e.o.msg],
                                        want |-> Want(e),
-                                       got |-> IF e.ev = "Container" THEN e.o.facts ELSE <<>>])>>)
+                                       got |-> IF e.ev = "Container" /\ Returned(e) THEN e.o.facts ELSE <<>>])>>)
 
 TSpec == TInit /\ [][TNext]_tvars
 
